@@ -1,7 +1,8 @@
 /-
   C05 helpers, part 7: out-of-fuel is impossible.  Whenever the reference value exists with fuel
   `qf ≤ qfuel`, `quiesce` / `negamax` return `some _` — for every table, window, stack and deadline
-  (no `NoStop` assumption): the pruned search only visits a subtree of the reference tree.
+  (no `NoStop` assumption): the pruned search only visits a subtree of the reference tree, plus children
+  that cannot matter, where it returns at the stand-pat test.
 -/
 import Flounder.Lemmas.SearchContract
 
@@ -33,6 +34,31 @@ theorem quiesceLoop_some (rec : P → Int → Int → SearchState → Option Int
       · exact ⟨β, rfl⟩
       · exact ih _ _ (fun m hm => h m (List.mem_cons_of_mem _ hm))
 
+/-- `quiesceLoop_some`, carrying the invariant `e ≤ α` (the accumulator only grows): the recursive call
+    only has to answer for the windows `(-β, -a)` with `e ≤ a`. -/
+theorem quiesceLoop_some_ge (rec : P → Int → Int → SearchState → Option Int × SearchState) (p : P)
+    (β e : Int) :
+    ∀ (rest : List Move) (α : Int) (s : SearchState), e ≤ α →
+      (∀ m ∈ rest, ∀ a s', e ≤ a → ∃ r, (rec (G.play p m) (-β) (-a) s').1 = some r) →
+      ∃ r, (quiesceLoop G rec p β rest α s).1 = some r := by
+  intro rest
+  induction rest with
+  | nil => intro α s _ _; exact ⟨α, rfl⟩
+  | cons mv rest ih =>
+    intro α s hα h
+    rw [quiesceLoop_cons]
+    split
+    · exact ⟨α, rfl⟩
+    · obtain ⟨r, hr⟩ := h mv List.mem_cons_self α (polled s) hα
+      rcases hres : rec (G.play p mv) (-β) (-α) (polled s) with ⟨ro, s2⟩
+      rw [hres] at hr
+      simp only at hr
+      subst hr
+      simp only
+      split
+      · exact ⟨β, rfl⟩
+      · exact ih _ _ (by omega) (fun m hm => h m (List.mem_cons_of_mem _ hm))
+
 theorem quiesce_some (n : Nat) : ∀ (fuel : Nat) (p : P) (α β q : Int) (s : SearchState),
     Spec.Q G n p = some q → n ≤ fuel → ∃ r, (quiesce G fuel p α β s).1 = some r := by
   induction n with
@@ -44,13 +70,22 @@ theorem quiesce_some (n : Nat) : ∀ (fuel : Nat) (p : P) (α β q : Int) (s : S
     rw [quiesce_succ, perm_isEmpty hperm]
     cases hm : ((qList G p).isEmpty && G.inCheck p)
     · simp only [Bool.false_eq_true, ↓reduceIte]
-      obtain ⟨hex, _, _, _⟩ := Q_children G n p q hm hq
+      obtain ⟨hz, hex, _, _, _⟩ := Q_children G n p q hm hq
       split
       · exact ⟨β, rfl⟩
-      · apply quiesceLoop_some
-        intro m hm' a b s'
-        obtain ⟨x, hx⟩ := hex m (hperm.mem_iff.1 hm')
-        exact ih f (G.play p m) a b x s' hx (by omega)
+      · apply quiesceLoop_some_ge G (quiesce G f) p β (G.eval p)
+        · omega
+        · intro m hm' a s' ha
+          have hmem := hperm.mem_iff.1 hm'
+          cases hrel : qRel G p m
+          · -- a child that cannot matter returns at its stand-pat test
+            have hn0 := hz m hmem hrel
+            obtain ⟨f', rfl⟩ : ∃ f', f = f' + 1 := ⟨f - 1, by omega⟩
+            obtain ⟨hnm, hle⟩ := qRel_false G hrel
+            rw [quiesce_standpat G f' _ (-β) (-a) s' hnm (by omega)]
+            exact ⟨_, rfl⟩
+          · obtain ⟨x, hx⟩ := hex m hmem hrel
+            exact ih f (G.play p m) (-β) (-a) x s' hx (by omega)
     · exact ⟨_, rfl⟩
 
 theorem negamaxLoop_some (rec : P → Nat → Int → Int → SearchState → Option SearchResult × SearchState)
